@@ -260,6 +260,8 @@ def monitor(req, ans):
     steps = ans["trace"] + [{"step": "final", "ok": True, "obs": ans["final"]}]
     admin_pool = None
     for rec in steps:
+        if not rec.get("ok"):
+            break       # a step the implementation could not execute as scheduled: nothing after it is a valid observation
         obs = rec["obs"]
         st = rec["step"]
         actor, op, k = parse_tok(st) if ":" in st else (None, None, 0)
@@ -683,6 +685,48 @@ def check_admin(run, binp):
     return n
 
 
+def order_witnesses(run, binp):
+    """The witnesses of the two re-ordering mutants, run against pgcat's own code.  With the correct
+    order the harness cannot even start them (the first hook reached is the other one); if /repo's
+    code has been re-ordered they execute and the monitor shows the lost wake-up / early release on
+    the implementation itself."""
+    reqs = [{"mode": "schedule", "id": i, "clients": 1, "pools": 1, "grace_ms": 200, "steps": steps}
+            for i, (impl, steps, want) in enumerate(SELFTEST) if want]
+    answers = _run_chunk(binp, reqs)
+    found = 0
+    for req, ans in zip(reqs, answers):
+        bad = [b for b in monitor(req, ans) if b.startswith("(i)") or b.startswith("(ii)")]
+        if bad:
+            found += 1
+            run.violation("counterexample", "%s — schedule %s" % (bad[0], " ".join(req["steps"])),
+                          {"schedule": req, "monitor": bad, "impl_trace": ans,
+                           "note": "pgcat executes the protocol in the order of a mutant that Pause/Mutants.v proves wrong"})
+    run.cov["order_witnesses"] = {"run": len(reqs), "executable_on_impl": sum(1 for a in answers if not a.get("error")), "violations": found}
+    return found
+
+
+def call_site_shape(run):
+    """T1-style shape check of the one thing this check reads but does not execute: Client::handle
+    calls `pool.wait_paused().await` before it takes a server with `pool.get(...)` and re-resolves the pool."""
+    try:
+        src = open(os.path.join(vlib.REPO, "src", "client.rs")).read()
+    except OSError as e:
+        return "cannot read client.rs: %s" % e
+    src = vlib.strip_comments(src) if False else "\n".join(l for l in src.splitlines() if not l.strip().startswith("//"))
+    i = src.find("pool.wait_paused().await")
+    j = src.find(".get(query_router.shard(), query_router.role()")
+    k = src.find("pool = self.get_pool().await?")
+    if i < 0:
+        return "Client::handle no longer calls pool.wait_paused().await"
+    if src.count("pool.wait_paused().await") != 1:
+        return "Client::handle calls wait_paused() %d times (the model has one call per checkout)" % src.count("pool.wait_paused().await")
+    if j < 0 or not (i < j):
+        return "pool.wait_paused().await no longer precedes the checkout pool.get(..)"
+    if k < 0 or not (i < k < j):
+        return "the pool is no longer re-resolved between wait_paused() and the checkout"
+    return None
+
+
 def check(run):
     quick = run.tier == "quick"
     run.assumptions += [
@@ -744,6 +788,12 @@ def check(run):
     nv = 0
     if not selftest(run, binp):
         return
+    if order_witnesses(run, binp):
+        return
+    shape = call_site_shape(run)
+    run.cov["call_site_shape"] = shape or "ok"
+    if shape:
+        run.violation("tie-broken", "translator-shape-changed: %s" % shape, {"correspondence": "src/client.rs Client::handle call site of wait_paused()", "shape": shape}, found_input=False)
     for fi, (desc, fam) in enumerate(families):
         reqs = []
         for n, evs in fam:
